@@ -242,7 +242,7 @@ class HamiltonianContext(Context):
         super().__init__(atoms, rng)
 
         self.last_momenta: Momenta = atoms.get_momenta()
-        self.last_kinetic_energy: float = np.nan
+        self.last_kinetic_energy: float = atoms.get_kinetic_energy()  # type: ignore[ase]
 
     def save_state(self) -> None:
         """Save the current state of the context, including the last momenta and kinetic
@@ -256,6 +256,7 @@ class HamiltonianContext(Context):
         """Revert the context to the last saved state, restoring the last momenta and
         kinetic energy."""
         self.atoms.set_array("momenta", self.last_momenta.copy(), float, (3,))
+        self.last_kinetic_energy = self.atoms.get_kinetic_energy()  # type: ignore[ase]
 
         super().revert_state()
 
